@@ -152,8 +152,18 @@ def is_instance(obj: Any, type_qname: str, parser: ta.XPathParserType | None = N
     raise ElementPathKeyError("unknown type %r" % type_qname)
 
 
-def is_sequence_type(value: str, parser: ta.XPathParserType | None = None) -> bool:
-    """Checks if a string is a sequence type specification."""
+def is_sequence_type(value: str, parser: ta.XPathParserType | None = None,
+                     nested: bool = False) -> bool:
+    """
+    Checks if a string is a sequence type specification.
+
+    :param value: the string to check.
+    :param parser: an optional parser instance for checking the names and the version.
+    :param nested: if `True` the parameter list of a function test is split by nesting \
+    depth, so that function tests, map tests and element/attribute tests with a type \
+    argument are accepted as parameter types in any position. For default a function \
+    test is accepted as parameter type only in the last position.
+    """
 
     @cache
     def is_st(st: str) -> bool:
@@ -228,6 +238,14 @@ def is_sequence_type(value: str, parser: ta.XPathParserType | None = None) -> bo
                 return False
             else:
                 return is_st(st[9:-1])
+
+            if nested:
+                sequence_types = split_function_test(st)
+                if not sequence_types:
+                    return False
+                elif len(sequence_types) > 1 and sequence_types[-2] == '...':
+                    del sequence_types[-2]  # variadic signature
+                return all(is_st(x) for x in sequence_types)
 
             st, return_type = st.rsplit(' as ', 1)
             if not is_st(return_type):
